@@ -6,7 +6,7 @@ Property theorems only (helpers: `Proofs/Faults*.lean`). The statements quantify
 script `cs : List Call` of API calls and every fault plan `F : Nat → Plan` (call index ↦ set of
 storage phases that hit a failing operation in that call) — "fails once at k" and "fails from k
 on" are two such plans — and over the channel capacity `cap` (`PIPELINE_MAX_SIZE_IN_DOCS`).
-`final cap F cs` is the state reached from an empty index.
+`final sy cap F cs` is the state reached from an empty index.
 
 What the model does *not* cover is listed in `tools/claims/C11.json`: several worker threads
 (one worker here), deletes, the exact number of storage operations per phase, and the runtime
@@ -25,24 +25,27 @@ theorem C11_mirrored_code_shape :
 
 /-- **A commit that returns `Ok` is complete.** In every faulty run, if a `commit` of a writer
 that has reported no error since it was created / rolled back returns `Ok`, then none of the
-storage phases its result depends on failed (worker flush, purge, `save_metas`), `meta.json`
-now denotes exactly the previous content plus every document whose `add_document` returned
+storage phases its result depends on failed (worker flush, purge, `save_metas`, and — when the
+code has it — the directory sync after the rename), `meta.json` now denotes exactly the previous content plus every document whose `add_document` returned
 `Ok` since the last commit, and every segment it references has its files. -/
-theorem C11_commit_ok_complete (cap : Nat) (F : Nat → Plan) (cs : List Call) (f : Plan) :
-    let s := final cap F cs
-    ∀ w, s.writer = some w → w.clean = true → (call cap f s .commit).2 = .ok →
-      f .purge = false ∧ f .saveMeta = false ∧ (w.acked ≠ [] → f .worker = false) ∧
-      content (call cap f s .commit).1.metaSegs = content s.metaSegs ++ w.acked ∧
-      segsHaveFiles (call cap f s .commit).1.metaSegs (call cap f s .commit).1.files := by
+theorem C11_commit_ok_complete (sy : Bool) (cap : Nat) (F : Nat → Plan) (cs : List Call) (f : Plan)
+    (hS : Safe sy cap F 0 init cs) :
+    let s := final sy cap F cs
+    ∀ w, s.writer = some w → w.clean = true → (call sy cap f s .commit).2 = .ok →
+      f .purge = false ∧ f .saveMeta = false ∧ (sy && f .saveSync2) = false ∧
+      (w.acked ≠ [] → f .worker = false) ∧
+      content (call sy cap f s .commit).1.metaSegs = content s.metaSegs ++ w.acked ∧
+      segsHaveFiles (call sy cap f s .commit).1.metaSegs (call sy cap f s .commit).1.files := by
   intro s w hw hc hok
-  have hK : K s := K_run cap F 0 init cs K_init
-  have hJ : J (call cap f s .commit).1 := J_call cap f s .commit (J_run cap F 0 init cs J_init)
+  have hK : K s := K_run sy cap F 0 init cs K_init
+  have hJ : J sy (call sy cap f s .commit).1 :=
+    J_call sy cap f s .commit (J_run sy cap F 0 init cs (J_init sy) hS) (fun _ _ _ _ h => by cases h)
   simp only [K, hw] at hK
-  obtain ⟨h1, h2, h3, h4⟩ := clean_commit_ok hw (hK hc) hok
-  exact ⟨h1, h2, h3, h4, hJ.1⟩
+  obtain ⟨h1, h2, h3, h4, h5⟩ := clean_commit_ok hw (hK hc) hok
+  exact ⟨h1, h2, h3, h4, h5, hJ.1⟩
 
-example : (run 4 (fun _ => noFault) 0 init [.newWriter, .add 7, .add 8, .commit]).2 = [.ok, .ok, .ok, .ok]
-    ∧ content (final 4 (fun _ => noFault) [.newWriter, .add 7, .add 8, .commit]).metaSegs = [7, 8] := by decide
+example : (run false 4 (fun _ => noFault) 0 init [.newWriter, .add 7, .add 8, .commit]).2 = [.ok, .ok, .ok, .ok]
+    ∧ content (final false 4 (fun _ => noFault) [.newWriter, .add 7, .add 8, .commit]).metaSegs = [7, 8] := by decide
 
 /-
 Full statement without the hypothesis `w.clean` (false for the code as it is):
@@ -56,28 +59,38 @@ in the index -/
 theorem C11_commit_ok_complete_counterexample :
     let F : Nat → Plan := fun i p => i == 1 && p == .worker
     let cs := [Call.newWriter, .add 1, .commit, .add 2, .commit]
-    (run 4 F 0 init cs).2 = [.ok, .ok, .err, .ok, .ok] ∧ content (final 4 F cs).metaSegs = [] := by
+    (run false 4 F 0 init cs).2 = [.ok, .ok, .err, .ok, .ok] ∧ content (final false 4 F cs).metaSegs = [] := by
   decide
 
 /-- **The last commit stays intact.** In every faulty run, at every point: every segment
 `meta.json` references has its files on storage (GC deletes only what neither `meta.json` nor a
 register references; failed workers and merges leave only unreferenced files); `meta.json`
-changes only in a `commit` / `merge` whose `save_metas` succeeded — a failed `atomic_write`
-leaves it as it was — and a merge by a writer without earlier failures never changes its content.
+changes only in a `commit` / `merge` whose `atomic_write` succeeded — a failed `atomic_write`
+leaves it as it was — a merge by a writer without earlier failures never changes its content;
+and when a `commit` of such a writer returns `Err`, `meta.json` denotes either exactly what it
+denoted before or exactly the attempted commit (previous content plus every acknowledged
+document, all files present) — the latter only when the code syncs the directory after the
+rename and precisely that barrier failed: the commit is visible, its durability unknown.
 (A merge after a `commit` whose `save_metas` failed publishes that commit's complete content:
 `end_merge` saves the in-memory committed register.) -/
-theorem C11_last_commit_intact (cap : Nat) (F : Nat → Plan) (cs : List Call) (f : Plan) (c : Call) :
-    let s := final cap F cs
+theorem C11_last_commit_intact (sy : Bool) (cap : Nat) (F : Nat → Plan) (cs : List Call) (f : Plan) (c : Call)
+    (hS : Safe sy cap F 0 init cs) :
+    let s := final sy cap F cs
     segsHaveFiles s.metaSegs s.files ∧
-    ((call cap f s c).1.metaSegs ≠ s.metaSegs →
+    ((call sy cap f s c).1.metaSegs ≠ s.metaSegs →
         (c = .commit ∧ f .saveMeta = false ∧ f .purge = false) ∨
         (c = .merge ∧ f .endMergeSave = false ∧ f .mergeThread = false ∧ f .endMergePurge = false)) ∧
     (c = .merge → ∀ w, s.writer = some w → w.clean = true →
-        content (call cap f s c).1.metaSegs = content s.metaSegs) := by
+        content (call sy cap f s c).1.metaSegs = content s.metaSegs) ∧
+    (c = .commit → ∀ w, s.writer = some w → w.clean = true → (call sy cap f s c).2 = .err →
+        content (call sy cap f s c).1.metaSegs = content s.metaSegs ∨
+        (content (call sy cap f s c).1.metaSegs = content s.metaSegs ++ w.acked ∧ sy = true ∧
+         f .saveSync2 = true ∧ f .purge = false ∧ f .saveMeta = false ∧
+         segsHaveFiles (call sy cap f s c).1.metaSegs (call sy cap f s c).1.files)) := by
   intro s
-  have hJ : J s := J_run cap F 0 init cs J_init
-  have hK : K s := K_run cap F 0 init cs K_init
-  refine ⟨hJ.1, ?_, ?_⟩
+  have hJ : J sy s := J_run sy cap F 0 init cs (J_init sy) hS
+  have hK : K s := K_run sy cap F 0 init cs K_init
+  refine ⟨hJ.1, ?_, ?_, ?_⟩
   · intro hne
     cases c with
     | commit =>
@@ -88,7 +101,7 @@ theorem C11_last_commit_intact (cap : Nat) (F : Nat → Plan) (cs : List Call) (
       | none => simp [hs] at hne
       | some w =>
         simp only [hs] at hne
-        have hu : ∀ s' w', s'.metaSegs = s.metaSegs → (updaterCommit f s' w').1.metaSegs ≠ s.metaSegs →
+        have hu : ∀ s' w', s'.metaSegs = s.metaSegs → (updaterCommit sy f s' w').1.metaSegs ≠ s.metaSegs →
             f .saveMeta = false ∧ f .purge = false := by
           intro s' w' hm h
           unfold updaterCommit at h
@@ -178,40 +191,49 @@ theorem C11_last_commit_intact (cap : Nat) (F : Nat → Plan) (cs : List Call) (
     split <;> try rfl
     split <;> try rfl
     split <;> try rfl
-    rw [gcRun_meta]
-    simp [mergedPublished, mergedRegs, content, h4]
+    split
+    · simp [mergedRegs, content, h4]
+    · rw [gcRun_meta]
+      simp [mergedPublished, mergedRegs, content, h4]
+  · intro hc w hs hcl herr
+    subst hc
+    simp only [K, hs] at hK
+    exact clean_commit_err hs (hK hcl) herr
+      (J_call sy cap f s .commit hJ (fun _ _ _ _ h => by cases h)).1
 
-example : (final 4 (fun i p => i == 3 && p == .saveMeta) [.newWriter, .add 1, .commit, .commit]).metaSegs
+example : (final false 4 (fun i p => i == 3 && p == .saveMeta) [.newWriter, .add 1, .commit, .commit]).metaSegs
     = [⟨0, [1]⟩] := by decide
 
 /-- **Errors are reported, confined, or harmless.** In every faulty run, for the current writer:
 (i) an indexing-worker (or compressor) failure during `add_document` leaves the writer in a
 state in which every further `add_document` and the next `commit` return `Err`; a worker, purge
-or `save_metas` failure during `commit` makes that `commit` return `Err`;
+or `save_metas` failure during `commit` — including the directory sync after the rename, when the
+code has it — makes that `commit` return `Err`;
 (ii) a failure on the merge thread or in `end_merge`'s `advance_deletes` makes `merge` return
 `Err` and leaves `meta.json` and both registers untouched;
 (iii) GC failures never change the result of `commit`, and failing deletes leave the storage and
 the managed list exactly as they were;
 (iv) a failing reload returns `Err` and leaves the current searcher (and everything else) alone. -/
-theorem C11_error_reported (cap : Nat) (F : Nat → Plan) (cs : List Call) (f : Plan) :
-    let s := final cap F cs
+theorem C11_error_reported (sy : Bool) (cap : Nat) (F : Nat → Plan) (cs : List Call) (f : Plan) :
+    let s := final sy cap F cs
     ∀ w, s.writer = some w →
       (w.alive = true → w.workers = true → f .worker = true → ∀ d, ∃ w',
-          (call cap f s (.add d)).1.writer = some w' ∧ w'.workerErr = true ∧ w'.alive = false ∧
+          (call sy cap f s (.add d)).1.writer = some w' ∧ w'.workerErr = true ∧ w'.alive = false ∧
           w'.workers = true) ∧
       (w.workerErr = true → w.alive = false → w.workers = true →
-          (∀ d, (call cap f s (.add d)).2 = .err) ∧ (call cap f s .commit).2 = .err) ∧
+          (∀ d, (call sy cap f s (.add d)).2 = .err) ∧ (call sy cap f s .commit).2 = .err) ∧
       (w.workers = true →
-          ((w.queue ≠ [] ∧ f .worker = true) ∨ f .purge = true ∨ f .saveMeta = true) →
-          (call cap f s .commit).2 = .err) ∧
+          ((w.queue ≠ [] ∧ f .worker = true) ∨ f .purge = true ∨ f .saveMeta = true ∨
+           (sy = true ∧ f .saveSync2 = true)) →
+          (call sy cap f s .commit).2 = .err) ∧
       (f .mergeThread = true ∨ f .endMergePurge = true →
-          (call cap f s .merge).2 = .err ∧ (call cap f s .merge).1.metaSegs = s.metaSegs ∧
-          ∃ w', (call cap f s .merge).1.writer = some w' ∧ w'.committed = w.committed ∧
+          (call sy cap f s .merge).2 = .err ∧ (call sy cap f s .merge).1.metaSegs = s.metaSegs ∧
+          ∃ w', (call sy cap f s .merge).1.writer = some w' ∧ w'.committed = w.committed ∧
                 w'.uncommitted = w.uncommitted) ∧
       (∀ f' : Plan, (∀ p, p ≠ .gcLock → p ≠ .gcDelete → p ≠ .gcManaged → f' p = f p) →
-          (call cap f' s .commit).2 = (call cap f s .commit).2) ∧
+          (call sy cap f' s .commit).2 = (call sy cap f s .commit).2) ∧
       (f .gcDelete = true → (gcRun f s w).1 = s) ∧
-      (f .reload = true → call cap f s .reload = (s, .err)) := by
+      (f .reload = true → call sy cap f s .reload = (s, .err)) := by
   intro s w hw
   refine ⟨?_, ?_, ?_, ?_, ?_, ?_, ?_⟩
   · intro ha hwk hf d
@@ -228,7 +250,7 @@ theorem C11_error_reported (cap : Nat) (F : Nat → Plan) (cs : List Call) (f : 
       split
       · rfl
       · rename_i hcond
-        rcases hfail with ⟨hq, hfw⟩ | hp | hsv
+        rcases hfail with ⟨hq, hfw⟩ | hp | hsv | ⟨hsy, hs2⟩
         · exfalso; apply hcond
           cases hq' : w.queue with
           | nil => exact absurd hq' hq
@@ -236,6 +258,9 @@ theorem C11_error_reported (cap : Nat) (F : Nat → Plan) (cs : List Call) (f : 
         · unfold updaterCommit; split <;> simp [hp]
         · unfold updaterCommit; split <;> try rfl
           split <;> simp [hsv]
+        · unfold updaterCommit; split <;> try rfl
+          split <;> try rfl
+          split <;> simp [hsy, hs2]
   · intro hf
     simp only [call, hw]
     split
@@ -251,10 +276,12 @@ theorem C11_error_reported (cap : Nat) (F : Nat → Plan) (cs : List Call) (f : 
     have e1 : f' .worker = f .worker := hf' _ (by decide) (by decide) (by decide)
     have e2 : f' .purge = f .purge := hf' _ (by decide) (by decide) (by decide)
     have e3 : f' .saveMeta = f .saveMeta := hf' _ (by decide) (by decide) (by decide)
-    have hu : ∀ s' w', (updaterCommit f' s' w').2 = (updaterCommit f s' w').2 := by
+    have e4 : f' .saveSync2 = f .saveSync2 := hf' _ (by decide) (by decide) (by decide)
+    have hu : ∀ s' w', (updaterCommit sy f' s' w').2 = (updaterCommit sy f s' w').2 := by
       intro s' w'
       unfold updaterCommit
-      rw [e2, e3]
+      rw [e2, e3, e4]
+      split <;> try rfl
       split <;> try rfl
       split <;> try rfl
       split <;> rfl
@@ -268,41 +295,41 @@ theorem C11_error_reported (cap : Nat) (F : Nat → Plan) (cs : List Call) (f : 
   · intro hf
     simp [call, hf]
 
-example : (run 4 (fun i p => i == 1 && p == .worker) 0 init [.newWriter, .add 1, .add 2, .commit]).2
+example : (run false 4 (fun i p => i == 1 && p == .worker) 0 init [.newWriter, .add 1, .add 2, .commit]).2
     = [.ok, .ok, .err, .err] := by decide
-example : (run 4 (fun i p => i == 3 && p == .mergeThread) 0 init [.newWriter, .add 1, .commit, .merge, .merge]).2
+example : (run false 4 (fun i p => i == 3 && p == .mergeThread) 0 init [.newWriter, .add 1, .commit, .merge, .merge]).2
     = [.ok, .ok, .ok, .err, .ok] := by decide
 
 /-- **Recoverable.** From every state of every faulty run in which no lock file was orphaned —
 which is every state if flushing and deleting the lock file never fail — dropping the writer
 (whatever happened to it) and opening a new one succeeds once the faults are over, and the new
 writer adds and commits on top of exactly what `meta.json` denoted. -/
-theorem C11_recoverable (cap : Nat) (F : Nat → Plan) (cs : List Call) (d : Nat) :
-    let s := final cap F cs
+theorem C11_recoverable (sy : Bool) (cap : Nat) (F : Nat → Plan) (cs : List Call) (d : Nat) :
+    let s := final sy cap F cs
     ((∀ i, LockSafe (F i)) → stale s = false) ∧
     (stale s = false →
-      (run cap (fun _ => noFault) 0 s [.dropWriter, .newWriter, .add d, .commit]).2 = [.ok, .ok, .ok, .ok] ∧
-      content (run cap (fun _ => noFault) 0 s [.dropWriter, .newWriter, .add d, .commit]).1.metaSegs
+      (run sy cap (fun _ => noFault) 0 s [.dropWriter, .newWriter, .add d, .commit]).2 = [.ok, .ok, .ok, .ok] ∧
+      content (run sy cap (fun _ => noFault) 0 s [.dropWriter, .newWriter, .add d, .commit]).1.metaSegs
         = content s.metaSegs ++ [d]) := by
   intro s
   constructor
   · intro hF
-    have key : ∀ (cs : List Call) (i : Nat) (s0 : St), stale s0 = false → stale (run cap F i s0 cs).1 = false := by
+    have key : ∀ (cs : List Call) (i : Nat) (s0 : St), stale s0 = false → stale (run sy cap F i s0 cs).1 = false := by
       intro cs
       induction cs with
       | nil => intro i s0 h; exact h
       | cons c cs ih =>
         intro i s0 h
         rw [run_cons]
-        exact ih (i + 1) _ (stale_call cap (F i) (hF i) s0 c h)
+        exact ih (i + 1) _ (stale_call sy cap (F i) (hF i) s0 c h)
     exact key cs 0 init (by decide)
   · intro hst
-    have hdrop := drop_noFault cap s hst
+    have hdrop := drop_noFault sy cap s hst
     simp only [run_cons, hdrop]
     simp [run, call, noFault, freshWriter, updaterCommit, flushS, flushW, published, commitRegs,
       gcRun_meta, content, newFiles]
 
-example : stale (final 4 (fun i p => i == 1 && p == .worker) [.newWriter, .add 1, .commit]) = false := by decide
+example : stale (final false 4 (fun i p => i == 1 && p == .worker) [.newWriter, .add 1, .commit]) = false := by decide
 
 /-
 Full statement without the hypothesis on the lock file (false for the code as it is): the
@@ -312,9 +339,9 @@ from then on every `Index::writer` fails with `LockBusy`, also after the faults 
 -/
 theorem C11_recoverable_counterexample :
     let F : Nat → Plan := fun i p => i == 1 && p == .lockDelete
-    (run 4 F 0 init [.newWriter, .dropWriter, .newWriter, .newWriter]).2 = [.ok, .ok, .err, .err] ∧
-    stale (final 4 F [.newWriter, .dropWriter]) = true ∧
-    stale (final 4 (fun i p => i == 0 && p == .lockFlush) [.newWriter]) = true := by decide
+    (run false 4 F 0 init [.newWriter, .dropWriter, .newWriter, .newWriter]).2 = [.ok, .ok, .err, .err] ∧
+    stale (final false 4 F [.newWriter, .dropWriter]) = true ∧
+    stale (final false 4 (fun i p => i == 0 && p == .lockFlush) [.newWriter]) = true := by decide
 
 /-
 Model-level liveness. Full statement (false for the code as it is): no call blocks forever.
@@ -324,12 +351,12 @@ A writer whose `commit` failed on a worker error has no workers but a live chann
 /-- the part that holds: in every faulty run no call of a writer that has reported no error
 blocks, and the only call that can ever block is `add_document` on a writer left without workers
 whose channel is full -/
-theorem C11_no_wait_cycle_partial (cap : Nat) (F : Nat → Plan) (cs : List Call) (f : Plan) (c : Call) :
-    let s := final cap F cs
-    ((call cap f s c).2 = .hang →
+theorem C11_no_wait_cycle_partial (sy : Bool) (cap : Nat) (F : Nat → Plan) (cs : List Call) (f : Plan) (c : Call) :
+    let s := final sy cap F cs
+    ((call sy cap f s c).2 = .hang →
         ∃ d w, c = .add d ∧ s.writer = some w ∧ w.workers = false ∧ w.clean = false ∧ cap ≤ w.queue.length) := by
   intro s hh
-  have hK : K s := K_run cap F 0 init cs K_init
+  have hK : K s := K_run sy cap F 0 init cs K_init
   cases c with
   | add d =>
     simp only [call] at hh
@@ -363,9 +390,10 @@ theorem C11_no_wait_cycle_partial (cap : Nat) (F : Nat → Plan) (cs : List Call
     · cases hh
   | commit =>
     simp only [call] at hh
-    have hu : ∀ s' w', (updaterCommit f s' w').2 ≠ .hang := by
+    have hu : ∀ s' w', (updaterCommit sy f s' w').2 ≠ .hang := by
       intro s' w'
       unfold updaterCommit
+      split <;> try simp
       split <;> try simp
       split <;> try simp
       split <;> simp
@@ -392,6 +420,7 @@ theorem C11_no_wait_cycle_partial (cap : Nat) (F : Nat → Plan) (cs : List Call
     · split at hh <;> try cases hh
       split at hh <;> try cases hh
       split at hh <;> try cases hh
+      split at hh <;> try cases hh
       split at hh <;> cases hh
   | gc =>
     simp only [call] at hh
@@ -410,8 +439,61 @@ theorem C11_no_wait_cycle_partial (cap : Nat) (F : Nat → Plan) (cs : List Call
 
 /-- witness with a channel of capacity 2: after the failed commit the third add blocks -/
 theorem C11_no_wait_cycle_counterexample :
-    (run 2 (fun i p => i == 1 && p == .worker) 0 init
+    (run false 2 (fun i p => i == 1 && p == .worker) 0 init
       [.newWriter, .add 1, .commit, .add 2, .add 3, .add 4]).2 = [.ok, .ok, .err, .ok, .ok, .hang] := by
   decide
+
+/-- the code as it is now: does `save_metas` sync after the rename? (0 / 1; the model handles both) -/
+theorem C11_post_rename_sync_shape : Gen.SAVE_METAS_SYNC_AFTER_WRITE = 0 ∨ Gen.SAVE_METAS_SYNC_AFTER_WRITE = 1 := by
+  decide
+
+/-- without the post-rename sync the storage invariant needs no proviso at all -/
+theorem C11_last_commit_intact_without_post_rename_sync (cap : Nat) (F : Nat → Plan) (cs : List Call) :
+    segsHaveFiles (final false cap F cs).metaSegs (final false cap F cs).files :=
+  (J_run_nosync cap F 0 init cs (J_init false)).1
+
+/-- **A commit whose durability barrier failed is visible, and recovery starts from it.** With
+the post-rename sync: if only that barrier fails in the `commit` of a clean writer, the call
+returns `Err`, `meta.json` denotes exactly the attempted commit with all its files present, and
+a following `rollback` succeeds on top of it (the examples below also run a later `commit`). -/
+theorem C11_commit_err_after_rename_visible (cap : Nat) (F : Nat → Plan) (cs : List Call) (f : Plan)
+    (hS : Safe true cap F 0 init cs)
+    (hf : f .saveSync2 = true ∧ f .worker = false ∧ f .purge = false ∧ f .saveMeta = false) :
+    let s := final true cap F cs
+    ∀ w, s.writer = some w → w.clean = true → w.workerErr = false →
+      (call true cap f s .commit).2 = .err ∧
+      content (call true cap f s .commit).1.metaSegs = content s.metaSegs ++ w.acked ∧
+      segsHaveFiles (call true cap f s .commit).1.metaSegs (call true cap f s .commit).1.files ∧
+      (call true cap noFault (call true cap f s .commit).1 .rollback).2 = .ok ∧
+      (call true cap noFault (call true cap f s .commit).1 .rollback).1.metaSegs
+        = (call true cap f s .commit).1.metaSegs := by
+  intro s w hw hc hwe
+  have hK : K s := K_run true cap F 0 init cs K_init
+  simp only [K, hw] at hK
+  have hcw := hK hc
+  have hJ : J true (call true cap f s .commit).1 :=
+    J_call true cap f s .commit (J_run true cap F 0 init cs (J_init true) hS) (fun _ _ _ _ h => by cases h)
+  obtain ⟨he, hm, w1, hw1, hg1⟩ := commit_sync2_clean (cap := cap) hw hcw hwe hf
+  have hrb := rollback_noFault true cap _ w1 hw1 hg1
+  exact ⟨he, hm, hJ.1, by rw [hrb], by rw [hrb]⟩
+
+/-
+Without the proviso `Safe` the storage invariant is false for a code that syncs after the
+rename inside the free function `save_metas` (i.e. before `store_meta`): the barrier of a commit
+fails (`meta.json` = the attempted commit, `active_index_meta` = the old one), then a merge fails
+in `end_merge`'s `save_metas` after the registers were swapped; now neither a register nor
+`active_index_meta` references the segments `meta.json` denotes and the next GC deletes them.
+(Two independent faults; "once" / "from k on" plans cannot produce it.)
+-/
+theorem C11_post_rename_sync_double_fault_counterexample :
+    let F : Nat → Plan := fun i p => (i == 2 && p == .saveSync2) || (i == 3 && p == .endMergeSave)
+    let cs := [Call.newWriter, .add 1, .commit, .merge, .gc]
+    (run true 4 F 0 init cs).2 = [.ok, .ok, .err, .err, .ok] ∧
+    (final true 4 F cs).metaSegs = [⟨0, [1]⟩] ∧ (final true 4 F cs).files = [1] := by decide
+
+example : (run true 4 (fun i p => i == 2 && p == .saveSync2) 0 init [.newWriter, .add 1, .commit, .rollback, .add 2, .commit]).2
+      = [.ok, .ok, .err, .ok, .ok, .ok]
+    ∧ content (final true 4 (fun i p => i == 2 && p == .saveSync2) [.newWriter, .add 1, .commit, .rollback, .add 2, .commit]).metaSegs = [1, 2]
+    ∧ content (final false 4 (fun i p => i == 2 && p == .saveSync2) [.newWriter, .add 1, .commit]).metaSegs = [1] := by decide
 
 end TantivyModel.C11
